@@ -214,6 +214,32 @@ func (e edSpec) build(t ad.ScalarType) (stat.ScalarPdf, error) {
 	return nil, fmt.Errorf("unknown emission kind %s", e.Kind)
 }
 
+func newCategorical(v ad.Vector) (stat.ScalarPdf, error) { return sd.NewCategoricalDistribution(v) }
+func newBinomial(a ad.Scalar, n int) (stat.ScalarPdf, error) {
+	return sd.NewBinomialDistribution(a, n)
+}
+
+// buildFrom constructs the distribution from given parameter scalars.
+func (e edSpec) buildFrom(sc []ad.Scalar) (stat.ScalarPdf, error) {
+	switch e.Kind {
+	case "normal":
+		return sd.NewNormalDistribution(sc[0], sc[1])
+	case "poisson":
+		return sd.NewPoissonDistribution(sc[0])
+	case "exponential":
+		return sd.NewExponentialDistribution(sc[0])
+	case "gamma":
+		return sd.NewGammaDistribution(sc[0], sc[1])
+	case "geometric":
+		return sd.NewGeometricDistribution(sc[0])
+	case "negbin":
+		return sd.NewNegativeBinomialDistribution(sc[0], sc[1])
+	case "cauchy":
+		return sd.NewCauchyDistribution(sc[0], sc[1])
+	}
+	return nil, fmt.Errorf("unknown emission kind %s", e.Kind)
+}
+
 var families = []string{"categorical", "normal", "poisson", "exponential", "gamma", "binomial", "geometric", "negbin", "mixed-real", "mixed-count"}
 
 // genEmissions draws ne emission distributions of one family and a generator
